@@ -410,7 +410,7 @@ func TestC05Seq(t *testing.T) {
 	})
 
 	// random: longer sequences over a larger id pool
-	nRand := e.Pick(40, 1000)
+	nRand := e.Pick(40, 20000)
 	vlib.RunCases(t, "C05", "seq-random", nRand, func(c *vlib.Case) vlib.Result {
 		var res vlib.Result
 		pool := []string{"a", "b", "c", "d", "e", "f"}
@@ -460,7 +460,7 @@ type c5step struct {
 
 func TestC05Loop(t *testing.T) {
 	e := vlib.GetEnv()
-	n := e.Pick(150, 3000)
+	n := e.Pick(150, 30000)
 	vlib.RunCases(t, "C05", "loop", n, func(c *vlib.Case) vlib.Result {
 		var res vlib.Result
 		rng := c.Rng
@@ -673,7 +673,7 @@ type c5cin struct {
 
 func TestC05Conc(t *testing.T) {
 	e := vlib.GetEnv()
-	n := e.Pick(300, 6000)
+	n := e.Pick(300, 50000)
 	model := porcupine.Model{
 		Init: func() interface{} { return "" },
 		Step: func(state, input, output interface{}) (bool, interface{}) {
